@@ -1,4 +1,4 @@
-(* Proofs/MapStreamFixed.v — ordered_map_valid_stream (repaired code) = map_spec, for every
+(* Proofs/MapStreamFixed.v — ordered_map_valid_stream (code after the C04 fixes, version Fixed0: old kernels, non-decreasing maps; used by MapStreamOrig; the final code is in MapStreamGen.v) = map_spec, for every
    invalid marker, every chunk size >= 1, every element type; and the fuel bound. *)
 From Coq Require Import ZArith List Lia Bool.
 From EV Require Import Res Arr MapStream MapStreamSpec MapStreamBase.
@@ -75,12 +75,12 @@ Qed.
 (* one sub-chunk of the repaired driver *)
 Lemma stream_subchunk_spec map_ rd s e :
   0 <= s -> s < e -> e <= len map_ -> e <= len rd -> valid_map (len data) inv map_ ->
-  exists rd', stream_subchunk zfill empty Fixed data map_ inv rd (s, e) = Ok rd' /\
+  exists rd', stream_subchunk zfill empty Fixed0 data map_ inv rd (s, e) = Ok rd' /\
               len rd' = len rd /\
               forall i, 0 <= i ->
                 nthd empty rd' i = if (s <=? i) && (i <? e) then fval (nthZ map_ i) else nthd empty rd i.
 Proof.
-  intros Hs Hse He Hr [Hrange Hmono]. unfold stream_subchunk. cbn [fst snd].
+  intros Hs Hse He Hr [Hrange Hmono]. unfold stream_subchunk, get_valid_value_extents_v, span_kernels. cbn [fst snd].
   destruct (gve_spec map_ s e inv) as [[Ha Hg]|[i0 [j0 [H1 [H2 [H3 [Ha1 [Ha2 [Hn1 [Hn2 Hg]]]]]]]]]]; try lia.
   - rewrite Hg. cbn [bind]. rewrite Z.eqb_refl.
     exists (np_slice_fill rd s e empty). split; [reflexivity|]. split; [apply len_np_slice_fill|].
@@ -111,7 +111,7 @@ Qed.
 (* all sub-chunks of one map chunk *)
 Lemma stream_fold_spec map_ : valid_map (len data) inv map_ ->
   forall subs a rd, chain subs a (len map_) -> 0 <= a -> len map_ <= len rd ->
-  exists rd', fold_res (stream_subchunk zfill empty Fixed data map_ inv) subs rd = Ok rd' /\
+  exists rd', fold_res (stream_subchunk zfill empty Fixed0 data map_ inv) subs rd = Ok rd' /\
               len rd' = len rd /\
               forall i, 0 <= i ->
                 nthd empty rd' i = if (a <=? i) && (i <? len map_) then fval (nthZ map_ i) else nthd empty rd i.
@@ -138,7 +138,7 @@ Lemma stream_loop_spec mapf cs kfuel :
   forall fuel m_off rd out,
   0 <= m_off <= len mapf -> len rd = cs -> (Z.to_nat (len mapf - m_off) < fuel)%nat ->
   let e := Z.min (m_off + cs) (len mapf) in
-  stream_loop zfill empty fuel kfuel Fixed data mapf inv cs (m_off, e) (slice mapf m_off e) (e - m_off) m_off rd out
+  stream_loop zfill empty fuel kfuel Fixed0 data mapf inv cs (m_off, e) (slice mapf m_off e) (e - m_off) m_off rd out
   = Ok (out ++ map fval (skipn (Z.to_nat m_off) mapf)).
 Proof.
   intros Hcs Hv Hk. induction fuel as [|f IH]; intros m_off rd out Hm Hrd Hf e; [lia|].
@@ -149,7 +149,7 @@ Proof.
     assert (Hlm : len map_ = e - m_off) by (apply len_slice; lia).
     assert (Hvm : valid_map (len data) inv map_) by (apply valid_map_slice; try lia; exact Hv).
     unfold get_map_subchunks.
-    destruct (subchunks_loop_chain kfuel Fixed map_ inv cs 0) as [subs [Hs Hc]]; try lia.
+    destruct (subchunks_loop_chain kfuel Fixed0 map_ inv cs 0) as [subs [Hs Hc]]; try lia.
     rewrite Hs. cbn [bind].
     destruct (stream_fold_spec map_ Hvm subs 0 rd Hc ltac:(lia) ltac:(lia)) as [rd' [Hfo [Hl' Hp']]].
     rewrite Hfo. cbn [bind].
@@ -172,7 +172,7 @@ Qed.
 
 Theorem map_stream_correct_gen (m:list Z) (cs:Z) (fuel:nat) :
   1 <= cs -> valid_map (len data) inv m -> (fuel >= length m + 1)%nat ->
-  ordered_map_valid_stream zfill empty fuel Fixed data m inv cs = Ok (map_spec empty data inv m).
+  ordered_map_valid_stream zfill empty fuel Fixed0 data m inv cs = Ok (map_spec empty data inv m).
 Proof.
   intros Hcs Hv Hf. unfold ordered_map_valid_stream.
   destruct (cs <? 0) eqn:E; [lia|].
